@@ -9,6 +9,8 @@ Sub-checks
     large        the copy / near-miss laws on values of 40-257 cells
     session      objects built ONCE and asked several times: in-place changes between calls (state kept between calls, the caller's own containers),
                  values sharing member objects / one object twice / views cut out of one array or frame (object identity among the inputs)
+    labels       Series / DataFrames whose index / column labels are python objects (strings, None, NaN, ints, ints beyond 2**53) under the pair, copy / near-miss and session laws;
+                 the near miss is mostly ONE label replaced by its near neighbour (None <-> NaN, the int float64 cannot tell from it, a different leaf)
     pool_cube    every pair and triple of a fixed pool, exhaustive
 """
 import datetime
@@ -38,6 +40,10 @@ ASSUMPTIONS = [
     'copy / near-miss and session laws; the zone near misses keep the wall clock and drop / add / change the zone, which is another instant. Not demanded either way: a zone-aware index against the naive or '
     'other-zone index of the SAME instants (eq compares labels through .values, i.e. UTC instants, and says True; pandas says such labels are equal across zones and unequal against naive ones; the statement does not '
     'speak of zones and DatetimeTZDtype is a pandas extension dtype) - such pairs are not generated. Transitivity (triples, pool_cube) keeps the zone-free universe',
+    'object-dtype labels (index kind \'obj\', object column labels; sub-check labels and a share of the wide universe): strings, None, NaN, small ints and ints beyond 2**53 as python objects. '
+    'Demanded unequal: a label None against NaN (None is not NaN: the types differ and eq(None, nan) is False), two ints that differ (an int beyond 2**53 against the int float64 cannot tell from it), a different leaf. '
+    'NOT generated, because nothing is claimed either way: an int label against the equal float label (plain floats other than NaN never occur among object labels), an object-dtype index against an '
+    'int64 / float64 index of equal labels (arrays of different dtype but equal cells, see above)',
     'session: an operand is changed in place only BETWEEN calls and every call is judged on the content it sees; nothing is demanded about eq leaving its operands untouched beyond that '
     '(later calls on the same objects are judged by the content the harness gave them)',
 ]
@@ -71,7 +77,8 @@ def build(v, env):
         if tag == 'df':
             idx = _index(v[1], env)
             rows = [[build(x, env) for x in row] for row in v[3]]
-            cols = list(v[2]) if all(isinstance(c, str) for c in v[2]) else pd.Index([build_scalar(c, env) for c in v[2]], dtype='float64')       # float labels, possibly NaN
+            kind = _cols_kind(v[2])
+            cols = list(v[2]) if kind == 'str' else pd.Index([build_scalar(c, env) for c in v[2]], dtype='float64' if kind == 'flt' else object)   # float labels, possibly NaN; object labels
             return pd.DataFrame(rows, index=idx, columns=cols, dtype='float64') if len(v[2]) else pd.DataFrame(index=idx)
         if tag in ('dtz', 'tsz'):       # zone-aware stamps: wall clock (ordinal, seconds) in the fixed-offset zone of v[3] minutes
             d = mkdt(v[1], v[2]).replace(tzinfo=_zone(v[3]))
@@ -90,9 +97,20 @@ def _mkdict(tag, d):
     return getattr(pyg_base, tag)(d)
 
 
+def _cols_kind(cols):
+    """how the column labels of a frame spec are built: all strings - a plain list; all floats / NaN - a float64 Index; anything else (strings, None, NaN, ints mixed) - an object-dtype Index"""
+    if all(isinstance(c, str) for c in cols):
+        return 'str'
+    if all(isinstance(c, float) or tag(c) == 'nan' for c in cols):
+        return 'flt'
+    return 'obj'
+
+
 def _index(spec, env=None):
     if spec[0] == 'range':
         return pd.RangeIndex(spec[1])
+    if spec[0] == 'obj':            # object-dtype labels: strings, None, NaN, small ints, ints beyond 2**53 (python objects, label by label)
+        return pd.Index([build_scalar(o, env) for o in spec[1]], dtype=object)
     if spec[0] == 'flt':            # float labels, possibly NaN (only generated behind INCLUDE_NAN_LABELS)
         return pd.Index([build_scalar(o, env) for o in spec[1]], dtype='float64')
     idx = pd.DatetimeIndex([pd.NaT if o is None else mkdt(o) for o in spec[1]])    # None = NaT label (only behind INCLUDE_NAN_LABELS)
@@ -157,6 +175,23 @@ def _arr(draw, inner=None, wide=False):
     return ['arr', dtype, shape, flat]
 
 
+# object-dtype labels (an index kind next to 'range', 'dates', 'flt', 'datesz', and object column labels): strings, None, NaN, small ints and ints beyond 2**53 as python objects.
+# At least one label is None, NaN or an int beyond 2**53 (the labels with a near neighbour: None <-> NaN, the int float64 cannot tell from it); one case in three (and every single label) holds numbers / None / NaN only
+# (what a numeric fast path would take), the others hold a string as well. Plain floats other than NaN are never generated: nothing is claimed about an int label against the equal float label
+_label_special = st.one_of(st.none(), _nan, st.sampled_from(BIG))
+_label_any = st.one_of(st.sampled_from(['a', 'b', '']), st.integers(0, 2), _label_special)
+_label_num = st.one_of(st.integers(0, 2), st.integers(0, 2), _label_special)
+
+
+@st.composite
+def _obj_labels(draw, n):
+    k = draw(st.integers(0, n - 1))
+    if draw(st.integers(0, 2)) == 0:
+        return [draw(_label_special if i == k else _label_num) for i in range(n)]
+    j = (k + 1 + draw(st.integers(0, max(n - 2, 0)))) % n           # with two labels or more, one is a string (j != k)
+    return [draw(_label_special if i == k else st.sampled_from(['a', 'b', '']) if i == j else _label_any) for i in range(n)]
+
+
 @st.composite
 def _pandas(draw, wide=False):
     n = draw(st.integers(0, 3))
@@ -171,6 +206,8 @@ def _pandas(draw, wide=False):
             idx = ['dates', [D0 + i for i in range(k)] + [None] + [D0 + i for i in range(k + 1, n)]]
     if wide and n and idx[0] == 'dates' and draw(st.integers(0, 3)) == 0:
         idx = ['datesz', idx[1], draw(st.sampled_from(ZONES))]                 # every label of the index zone-aware, in one zone with a non-zero offset
+    if wide and n and idx[0] == 'range' and draw(st.booleans()):   # taken out of the RangeIndex cases only: the NaN / NaT / zone-aware label classes keep their rates
+        idx = ['obj', draw(_obj_labels(n))]
     cell = st.one_of(st.sampled_from([0.0, 1.0, 2.5, 0.0, 1.0, 2.5, -0.0] if wide else [0.0, 1.0, 2.5]), _nan)
     if draw(st.booleans()):
         kind = draw(st.sampled_from(['float64', 'float64', 'int64', 'object', 'datetime64[ns]'] if wide else ['float64', 'float64', 'int64', 'object']))
@@ -187,6 +224,8 @@ def _pandas(draw, wide=False):
     cols = draw(st.one_of(st.lists(st.sampled_from(['a', 'b', 'c']), min_size=0, max_size=3, unique=True), st.lists(st.sampled_from(['a', 'a', 'b']), min_size=2, max_size=3)))
     if wide and INCLUDE_NAN_LABELS and len(set(cols)) == len(cols) and draw(st.integers(0, 2)) == 0:      # float column labels, one of them NaN (frames with duplicate labels are left as they are)
         cols = draw(st.sampled_from([[['nan', 0]], [0.0, ['nan', 0]], [['nan', 1], 1.0], [0.0, ['nan', 0], 2.0]]))
+    elif wide and cols and len(set(cols)) == len(cols) and draw(st.integers(0, 2)) == 0:                  # object column labels, taken out of the unique string labels only
+        cols = draw(_obj_labels(len(cols)))
     rows = [[draw(cell) for _ in cols] for _ in range(n)]
     return ['df', idx, cols, rows]
 
@@ -388,6 +427,27 @@ def _scalar_wide_mutations(v):
     return out
 
 
+LABEL_KINDS = ('index_label_none_vs_nan', 'index_label_bigint_collision', 'index_label_leaf', 'column_label_none_vs_nan', 'column_label_bigint_collision', 'column_label_leaf')
+
+
+def _label_mutations(labels, axis):
+    """object-dtype labels with ONE label replaced by its near neighbour: None <-> NaN (None is not NaN), an int beyond 2**53 -> the int float64 cannot tell from it
+    (two ints that differ are different labels), any label -> a different leaf. Never an int against the equal float"""
+    out = []
+    for i, c in enumerate(labels):
+        alts = []
+        if c is None:
+            alts.append(('none_vs_nan', ['nan', 0]))
+        elif tag(c) == 'nan':
+            alts.append(('none_vs_nan', None))
+        if _is_big(c) and _float_collision(c) is not None:
+            alts.append(('bigint_collision', _float_collision(c)))
+        alts.append(('leaf', _different_leaf(c)))
+        for k, m in alts:
+            out.append(('%s_label_%s' % (axis, k), labels[:i] + [m] + labels[i + 1:]))
+    return out
+
+
 def _mutations(v, wide=False):
     """all (kind, mutated spec) candidates obtained by ONE definite change somewhere in v
     (wide=True appends the candidates of classes 15 and 18; the narrow list is kept as it was so that stored replays keep their meaning)"""
@@ -479,6 +539,8 @@ def _mutations(v, wide=False):
                     out.append(('cell', ['series', idx, vals[:i] + ['zz'] + vals[i + 1:], dtype]))
             if wide:
                 out.extend((k, ['series', i2, vals, dtype]) for k, i2 in _zone_index_mutations(idx))
+            if idx[0] == 'obj':
+                out.extend((k, ['series', ['obj', l2], vals, dtype]) for k, l2 in _label_mutations(idx[1], 'index'))
         out.append(('length', ['series', _grow_index(idx), vals + [1.0 if dtype == 'float64' else ['dt', D0, 0] if dtype == 'datetime64[ns]' else 1], dtype]))
         return out
     if t == 'df':
@@ -488,12 +550,16 @@ def _mutations(v, wide=False):
             out.append(('index', ['df', _shift_index(idx), cols, rows]))
             if wide:
                 out.extend((k, ['df', i2, cols, rows]) for k, i2 in _zone_index_mutations(idx))
+            if idx[0] == 'obj':
+                out.extend((k, ['df', ['obj', l2], cols, rows]) for k, l2 in _label_mutations(idx[1], 'index'))
         if cols:
             out.append(('columns', ['df', idx, cols[:-1] + [_other_label(cols[-1])], rows]))
             out.append(('columns_dropped', ['df', idx, cols[:-1], [r[:-1] for r in rows]]))
             if not isinstance(cols[0], str):
                 for j, c in enumerate(cols):
                     out.append(('column_label_from_nan' if tag(c) == 'nan' else 'column_label', ['df', idx, cols[:j] + [_other_label(c)] + cols[j + 1:], rows]))
+            if _cols_kind(cols) == 'obj':
+                out.extend((k, ['df', idx, c2, rows]) for k, c2 in _label_mutations(cols, 'column'))
             if len(cols) >= 2 and not _cell_same(cols[0], cols[1]):
                 out.append(('columns_swapped', ['df', idx, [cols[1], cols[0]] + cols[2:], rows]))
             for i, r in enumerate(rows):
@@ -532,7 +598,11 @@ def _arr_ok(m):
 
 
 def _other_label(c):
-    """a column label that differs from c (string labels, or float labels where NaN is a label)"""
+    """a column label that differs from c (string labels, float labels where NaN is a label, object labels: None, ints)"""
+    if c is None:
+        return 0
+    if isinstance(c, int):
+        return c + 3
     return c + 'z' if isinstance(c, str) else 7.0 if tag(c) == 'nan' else c + 3.5
 
 
@@ -550,6 +620,8 @@ def _shift_index(idx):
         return ['dates', [D0 + i for i in range(idx[1])]]
     if idx[0] == 'flt':
         return ['flt', [50.0 if tag(o) == 'nan' else o + 10.0 for o in idx[1]]]
+    if idx[0] == 'obj':
+        return ['obj', [_different_leaf(o) for o in idx[1]]]
     return [idx[0], [D0 + 30 if o is None else o + 10 for o in idx[1]]] + idx[2:]
 
 
@@ -558,6 +630,8 @@ def _grow_index(idx):
         return ['range', idx[1] + 1]
     if idx[0] == 'flt':
         return ['flt', idx[1] + [99.0]]
+    if idx[0] == 'obj':
+        return ['obj', idx[1] + ['zz']]
     return [idx[0], idx[1] + [max([o for o in idx[1] if o is not None] + [D0]) + 20]] + idx[2:]
 
 
@@ -618,14 +692,24 @@ def _classes(*specs):
             cls.add('negative_zero')
         if has(v, lambda x: tag(x) == 'arr' and x[1] == 'datetime64[s]' and any(tag(c) == 'nat' for c in x[3])):
             cls.add('nat_in_datetime_array')
-        if has(v, lambda x: tag(x) in ('series', 'df') and x[1][0] != 'range' and any(o is None or tag(o) == 'nan' for o in x[1][1])):
-            cls.add('nan_or_nat_index_label')
+        if has(v, lambda x: tag(x) in ('series', 'df') and x[1][0] != 'range' and any((o is None and x[1][0] != 'obj') or tag(o) == 'nan' for o in x[1][1])):
+            cls.add('nan_or_nat_index_label')       # (None among object labels is None, not NaT)
+        if has(v, lambda x: tag(x) in ('series', 'df') and x[1][0] == 'obj'):
+            cls.update(['object_labels', 'object_index_labels'])
+        if has(v, lambda x: tag(x) == 'df' and _cols_kind(x[2]) == 'obj'):
+            cls.update(['object_labels', 'object_column_labels'])
+        if has(v, lambda x: (tag(x) in ('series', 'df') and x[1][0] == 'obj' and _numeric_labels(x[1][1])) or (tag(x) == 'df' and _cols_kind(x[2]) == 'obj' and _numeric_labels(x[2]))):
+            cls.add('object_labels_numbers_none_nan_only')
         if tag(v) in ('list', 'tuple', 'dict') and len(v[1]) >= 2 and any(_is_big(c) for c in _members(v)) and any(isinstance(c, float) for c in _members(v)) \
                 and all(tag(c) == 'nan' or (isinstance(c, (int, float)) and not isinstance(c, bool)) for c in _members(v)):
             cls.add('numbers_only_bigint_next_to_float')
         if tag(v) in CONT and has(v, lambda x: x is not v and tag(x) in CONT):
             cls.add('nested')
     return sorted(cls)
+
+
+def _numeric_labels(labels):
+    return all(c is None or tag(c) == 'nan' or (isinstance(c, int) and not isinstance(c, bool)) for c in labels)
 
 
 def _kind_classes(kind):
@@ -639,13 +723,22 @@ def _kind_classes(kind):
         cls.append('near_within_isclose_tolerance')        # a float leaf / cell moved by a relative 1e-9: a different number that np.isclose / rounding takes for the same
     if 'zone' in kind:
         cls.append('near_zone_changed_same_wall_clock')    # the same wall clock with no zone / a zone added / another zone: other instants
+    if kind in LABEL_KINDS:
+        cls.append('near_object_label_changed')            # one object-dtype label replaced: None <-> NaN, an int beyond 2**53 -> its float64 twin, a different leaf
+        cls.append('near_object_label_' + kind.split('_label_')[1])
     return cls
 
 
-def _pick_from(ms, prefer):
-    """the candidates of the preferred kind when there are any (keeps rare near misses frequent), else all of them"""
+def _pick_from(ms, prefer, pick=0):
+    """the candidates of the preferred kind when there are any (keeps rare near misses frequent), else all of them.
+    A value with object-dtype labels (these exist only in the wide universe) takes a label near miss in two cases out of three unless another kind is preferred"""
+    if prefer is None and (pick // 1000) % 3 != 0:
+        sel = [c for c in ms if c[0] in LABEL_KINDS]
+        if sel:
+            return sel
     if prefer:
-        sel = [c for c in ms if c[0] == prefer or c[0].endswith('_' + prefer) or (prefer == 'zone' and 'zone' in c[0])]
+        # 'zone' stands for the near misses on index / column LABELS: the zone of a date index, and one object-dtype label replaced
+        sel = [c for c in ms if c[0] == prefer or c[0].endswith('_' + prefer) or (prefer == 'zone' and ('zone' in c[0] or c[0] in LABEL_KINDS))]
         if sel:
             return sel
     return ms
@@ -656,7 +749,7 @@ def run_pairs(spec):
     vx, vy = spec['x'], spec['y']
     kind = None
     if spec.get('mut') is not None:
-        ms = _pick_from(_mutations(vx, bool(spec.get('w'))), spec.get('prefer'))
+        ms = _pick_from(_mutations(vx, bool(spec.get('w'))), spec.get('prefer'), spec['mut'])
         kind, vy = ms[spec['mut'] % len(ms)]
     env = Env()
     x, y = build(vx, env), build(vy, env)
@@ -709,7 +802,7 @@ def run_copy_near(spec):
         a, b = build(vx, Env()), build(vr, Env())
         check(_eq('%s, the same with dict keys inserted in reverse order' % short(a, 150), a, b) and _eq('reverse order first', b, a),
               'eq is False for %s and the same value with its dicts written in reverse key order', a)
-    ms = _pick_from(_mutations(vx, bool(spec.get('w'))), spec.get('prefer'))
+    ms = _pick_from(_mutations(vx, bool(spec.get('w'))), spec.get('prefer'), spec['mut'])
     kind, vm = ms[spec['mut'] % len(ms)]
     x = build(vx, Env())
     c = build(vx, Env())          # fresh NaN objects, fresh containers
@@ -1122,7 +1215,7 @@ def run_session(spec):
     if mode == 'views':
         return dict(nt=True, cls=_session_views(spec) + ['mode=views'])
     vx = spec['x']
-    ms = _pick_from(_mutations(vx, True), spec.get('prefer'))
+    ms = _pick_from(_mutations(vx, True), spec.get('prefer'), spec['mut'])
     if mode in ('inplace', 'shared') and spec.get('direct'):        # prefer the near misses that the very object Y can be turned into (same type and geometry, hence the same index)
         ms = [c for c in ms if _assignable(vx, c[1])] or ms
     kind, vm = ms[spec['mut'] % len(ms)]
@@ -1156,6 +1249,55 @@ _session_general = st.tuples(st.sampled_from(['inplace', 'inplace', 'inplace', '
 _session_containers = st.tuples(st.sampled_from(['inplace', 'inplace', 'shared']), st.one_of(_pandas(True), _arr(_leafy_w, True), _containers(_l1_w, True)), st.integers(0, 10 ** 6),
                                 st.sampled_from(_WRAPS), st.integers(0, 2)).map(lambda t: dict(mode=t[0], x=t[1], mut=t[2], wrap=t[3], prefer=None, direct=int(t[4] > 0)))
 _session = st.one_of(*([_session_general.map(dict) for _ in range(5)] + [_session_containers.map(dict) for _ in range(3)] + [_views()]))     # .map: hypothesis merges identical branches
+
+# ----------------------------------------------------------------------------- labels: Series / DataFrames whose index and / or column labels are python objects
+
+@st.composite
+def _pandas_obj(draw):
+    """a Series / DataFrame with object-dtype labels on the index, the columns or both (0-row frames included when only the columns carry them)"""
+    where = draw(st.sampled_from(['index', 'index', 'columns', 'columns', 'both']))
+    n = draw(st.integers(1 if where != 'columns' else 0, 3)) if draw(st.integers(0, 3)) else 2
+    if where != 'columns':
+        idx = ['obj', draw(_obj_labels(n))]
+    else:
+        idx = draw(st.one_of(st.just(['range', n]), st.lists(st.integers(D0, D0 + 5), min_size=n, max_size=n, unique=True).map(lambda o: ['dates', sorted(o)])))
+    cell = st.one_of(st.sampled_from([0.0, 1.0, 2.5]), _nan)
+    if where == 'index' and draw(st.booleans()):
+        kind = draw(st.sampled_from(['float64', 'float64', 'int64', 'object']))
+        vals = draw(st.lists(cell if kind == 'float64' else st.integers(0, 2) if kind == 'int64' else st.one_of(st.sampled_from(['a', 'b']), st.none(), st.integers(0, 2)), min_size=n, max_size=n))
+        return ['series', idx, vals, kind]
+    k = draw(st.integers(1, 3)) if draw(st.integers(0, 3)) else 2
+    cols = draw(_obj_labels(k)) if where != 'index' else draw(st.lists(st.sampled_from(['a', 'b', 'c']), min_size=k, max_size=k, unique=True))
+    return ['df', idx, cols, [[draw(cell) for _ in cols] for _ in range(n)]]
+
+
+def _nest(how, v):
+    return v if how is None else [how, [v, 'tail']] if how in ('list', 'tuple') else ['dict', [['a', v], ['b', 'tail']]]
+
+
+_LABEL_MODES = ['copy_near', 'copy_near', 'copy_near', 'pairs_near', 'pairs_free', 'inplace', 'inplace', 'shared', 'twice']
+
+
+def _labels_spec(t):
+    mode, x, y, mut, prefer, nest, wrap = t
+    if mode in ('copy_near', 'pairs_near'):
+        return dict(mode=mode[:-5] if mode == 'pairs_near' else mode, x=_nest(nest, x), y=None, mut=mut, w=1, prefer=prefer)
+    if mode == 'pairs_free':
+        return dict(mode='pairs', x=x, y=y, mut=None)
+    return dict(mode=mode, x=x, mut=mut, wrap=wrap, prefer=prefer, direct=0)
+
+
+_labels = st.tuples(st.sampled_from(_LABEL_MODES), _pandas_obj(), _pandas_obj(), st.integers(0, 10 ** 6), st.sampled_from([None, 'zone']), st.sampled_from([None, None, 'list', 'tuple', 'dict']),
+                    st.sampled_from(_WRAPS)).map(_labels_spec)
+
+
+def run_labels(spec):
+    """the pair, copy / near-miss and session laws on pandas objects with object-dtype labels; the near miss is mostly ONE label replaced (None <-> NaN, an int beyond 2**53 -> the int
+    float64 cannot tell from it, a different leaf): 'pandas objects are equal only if index, columns and all cells match'"""
+    mode = spec['mode']
+    res = run_pairs(spec) if mode == 'pairs' else run_copy_near(spec) if mode == 'copy_near' else run_session(spec)
+    return dict(nt=True, cls=[c for c in res['cls'] if not c.startswith('mode=')] + ['law=' + ('session' if mode in ('inplace', 'shared', 'twice') else mode)])
+
 
 # ----------------------------------------------------------------------------- the exhaustive pool
 
@@ -1245,6 +1387,11 @@ SUBS = [
                                  'operands_share_member_objects': 0.025, 'operands_share_container_members': 0.01, 'operand_is_view_of_other': 0.02,              # class 14
                                  'operands_share_index_object': 0.002, 'one_object_twice_in_operand': 0.025,
                                  'views_cut_from_one_base': 0.04, 'views_equal': 0.04, 'views_unequal': 0.015, 'views_same_start_other_strides:unequal': 0.006, 'views_same_start_other_strides:equal': 0.003}),
+    Sub('labels', lambda tier: _labels, run_labels, quick=700, thorough=4000,
+        rule='Series / DataFrames whose index and / or column labels are python objects (object-dtype Index: strings, None, NaN, small ints, ints beyond 2**53; numbers / None / NaN only in about half), bare or inside a '
+             'list / tuple / dict, under the pair laws, the copy / near-miss law and the session laws; the near miss is mostly ONE label replaced by its near neighbour: None <-> NaN, an int beyond 2**53 -> the int '
+             'float64 cannot tell from it, a different leaf (never an int against the equal float). always non-trivial',
+        floor=0.3, class_floors={}),
     EnumSub('pool_cube', enum_pool, run_pool, thorough_only=False, chunks=1,
             rule='the full %i x %i eq matrix of a fixed pool against structural copies, then every triple for transitivity (%i triples) - exhaustive' % (len(POOL), len(POOL), len(POOL) ** 3)),
 ]
@@ -1259,3 +1406,11 @@ SUBS[1].class_floors.update({'zone_aware_stamp': 0.017, 'zone_aware_scalar': 0.0
 SUBS[3].class_floors.update({'near_within_isclose_tolerance': 0.04})
 SUBS[4].class_floors.update({'zone_aware_stamp': 0.013, 'zone_aware_scalar': 0.008, 'zone_aware_index': 0.005, 'near_zone_changed_same_wall_clock': 0.003, 'near_within_isclose_tolerance': 0.003,
                              'series_of_datetime_cells': 0.0015})
+# object-dtype index / column labels (strings, None, NaN, small ints, ints beyond 2**53) inside the wide universe; the near misses on them have their floors in the sub-check 'labels'
+SUBS[0].class_floors.update({'object_labels': 0.002})
+SUBS[1].class_floors.update({'object_labels': 0.002})
+SUBS[4].class_floors.update({'object_labels': 0.0012})
+SUBS[5].class_floors.update({'object_labels': 0.3, 'object_index_labels': 0.2, 'object_column_labels': 0.15, 'object_labels_numbers_none_nan_only': 0.16, 'near_object_label_changed': 0.17,
+                             'near_object_label_none_vs_nan': 0.045, 'near_object_label_bigint_collision': 0.016, 'near_object_label_leaf': 0.09,
+                             'near=index_label_none_vs_nan': 0.028, 'near=column_label_none_vs_nan': 0.014,
+                             'law=pairs': 0.06, 'law=copy_near': 0.08, 'law=session': 0.13, 'state_between_calls': 0.065, 'operands_share_index_object': 0.009})
